@@ -540,7 +540,7 @@ package nitro
 //@ props C20
 //@ requires nlWF(l)
 //@ ghost-pre nlj := 0
-//@ modifies l.head, heap(Node.Link), l.seq, l.n, nlj
+//@ modifies l.head, heap(skiplist.Node.Link), l.seq, l.n, nlj
 //@ loop 1 ghost nlj := nlj + 1
 //@ loop 1 invariant[cursor] 0 <= nlj && nlj <= l.n && node == ite(nlj < l.n, l.seq[nlj], nil) && prev == ite(nlj > 0, l.seq[nlj - 1], nil) && l.n == old(l.n) && l.seq == old(l.seq) && l.head == old(l.head)
 //@ loop 1 invariant[links] forall i int {l.seq[i]} :: 0 <= i && i < l.n ==> l.seq[i].Link == old(l.seq[i].Link)
@@ -550,8 +550,11 @@ package nitro
 //@ ghost-exit if result != nil then l.seq := dropAt(l.seq, nlj)
 //@ ghost-exit if result != nil then l.n := l.n - 1
 //@ ensures[absent] result == nil ==> (forall i int {l.seq[i]} :: 0 <= i && i < l.n ==> !nlKeyEq(l.seq[i], key)) && l.n == old(l.n) && l.seq == old(l.seq) && l.head == old(l.head)
-//@ ensures[first-match] result != nil ==> 0 <= nlj && nlj < old(l.n) && result == old(l.seq[nlj]) && nlKeyEq(result, key) && (forall i int {old(l.seq[i])} :: 0 <= i && i < nlj ==> !nlKeyEq(old(l.seq[i]), key))
+//@ ensures[first-match] result != nil ==> 0 <= nlj && nlj < old(l.n) && result == old(l.seq)[nlj]
+//@ ensures[match-key] result != nil ==> nlKeyEq(result, key)
+//@ ensures[none-before] result != nil ==> (forall i int {old(l.seq[i])} :: 0 <= i && i < nlj ==> !nlKeyEq(old(l.seq[i]), key))
 //@ ensures[removed] result != nil ==> l.n == old(l.n) - 1 && (forall i int {l.seq[i]} :: 0 <= i && i < l.n ==> l.seq[i] == ite(i < nlj, old(l.seq[i]), old(l.seq[i + 1])))
+//@ ensures[links-frame] forall nd *skiplist.Node {nd.Link} :: (result == nil || nlj == 0 || nd != old(l.seq)[nlj - 1]) ==> nd.Link == old(nd.Link)
 //@ ensures[wf] nlWF(l)
 //@ nopanic
 
@@ -561,7 +564,7 @@ package nitro
 //@ ghost-pre nlj := 0
 //@ modifies nlj, mem(slice), heap($alive), heap($brk)
 //@ loop 1 ghost nlj := nlj + 1
-//@ loop 1 invariant[cursor] 0 <= nlj && nlj <= l.n && node == ite(nlj < l.n, l.seq[nlj], nil) && len(keys) == nlj
+//@ loop 1 invariant[cursor] 0 <= nlj && nlj <= l.n && node == ite(nlj < l.n, l.seq[nlj], nil) && len(keys) == nlj && len(keys) <= cap(keys) && ptr(keys) >= 0 && ptr(keys) + 24 * cap(keys) <= brk()
 //@ loop 1 invariant[collected] forall i int {keys[i]} :: 0 <= i && i < nlj ==> ptr(keys[i]) == l.seq[i].itm + 12 && len(keys[i]) == cast(*Item, l.seq[i].itm).dataLen
 //@ loop 1 decreases l.n - nlj
 //@ ensures[len] len(keys) == l.n
